@@ -95,6 +95,11 @@ structure Obs where
   leftBuf : Nat
   inflight : Nat     -- write calls still in progress when Close returned
   snaps : List Snap := []   -- snapshots taken while the batching loop was held up ("channel full" scenarios)
+  /-- events that HAD BEEN handed to the write function at the instant Close() returned (snapshot
+      taken by the caller of Close() right after the call; 0 unless Close returned) -/
+  writtenAtReturn : Nat := 0
+  /-- write calls that BEGAN after Close() had returned (a closed kafka.Writer in production) -/
+  lateCalls : Nat := 0
   deriving Repr, DecidableEq
 
 def Obs.delivered (o : Obs) : List Ev := (o.batches.flatten).map fun e => (e.1, e.2.1)
@@ -121,9 +126,16 @@ def sameEnvSameKey (prods : List Producer) (o : Obs) : Bool :=
 def safeOk (bm : Nat) (prods : List Producer) (o : Obs) : Bool :=
   orderedOnce o.delivered && batchesBounded bm o.shape && keysOk prods o && sameEnvSameKey prods o
 
-/-- Flush: Close returned with nothing in flight and everything accepted delivered. -/
+/-- "Handed to the broker BEFORE shutdown completes", not eventually: at the instant Close()
+    returned as many events had been handed to the write function as had been accepted, and no
+    write call began afterwards. -/
+def atReturnOk (o : Obs) : Bool :=
+  o.status != .returned || (o.writtenAtReturn == o.accepted.sum && o.lateCalls == 0)
+
+/-- Flush: Close returned with nothing in flight and everything accepted delivered — delivered by
+    then (`atReturnOk`), not later. -/
 def flushOk (o : Obs) : Bool :=
-  o.status != .returned || (allDelivered o.accepted o.delivered && o.inflight == 0)
+  (o.status != .returned || (allDelivered o.accepted o.delivered && o.inflight == 0)) && atReturnOk o
 
 /-- Close came back. -/
 def closeOk (o : Obs) : Bool := o.status == .returned
